@@ -265,6 +265,16 @@ func NewRaftNodeWithLogger(opts *ClusteringOptions, store storage.ManagedStore, 
 		// Bootstrap if there is no previous state and we are starting this node as
 		// a seed or a cluster configuration is provided.
 		if opts.Bootstrap {
+			if node.state.Index != 0 {
+				// The store comes from a backup: its applied index refers to a
+				// raft log that no longer exists. A new log starts at index 1, so
+				// keeping it would make the FSM discard every new entry as a replay.
+				node.log.Infof("Store restored from a backup (version %d): resetting applied index", node.state.BalloonVersion)
+				if err := node.resetAppliedIndex(); err != nil {
+					node.Close(true)
+					return nil, err
+				}
+			}
 			node.log.Info("Bootstraping cluster...")
 			if err := node.bootstrapCluster(); err != nil {
 				node.Close(true)
@@ -288,6 +298,24 @@ func NewRaftNodeWithLogger(opts *ClusteringOptions, store storage.ManagedStore, 
 
 // Close closes the RaftNode. If wait is true, waits for a graceful shutdown.
 // Once closed, a RaftNode may not be re-opened.
+// resetAppliedIndex persists an fsm state that keeps the balloon version but
+// forgets the applied raft index.
+func (n *RaftNode) resetAppliedIndex() error {
+	state := &fsmState{Index: 0, BalloonVersion: n.state.BalloonVersion}
+	buf, err := state.encode()
+	if err != nil {
+		return err
+	}
+	err = n.db.Mutate([]*storage.Mutation{
+		storage.NewMutation(storage.FSMStateTable, storage.FSMStateTableKey, buf),
+	}, nil)
+	if err != nil {
+		return err
+	}
+	n.state = state
+	return nil
+}
+
 func (n *RaftNode) Close(wait bool) error {
 	n.Lock()
 
